@@ -383,8 +383,18 @@ async fn run(transport_split: bool) {
                     let used = st.rcv_initial_dc.wrapping_add(st.rcv_sent).wrapping_sub(dc);
                     if used < credit && st.rcv_sent < 20 {
                         own_uid += 1;
-                        let m = msgs::gen_message(own_uid, 200, 1);
-                        let payload = msgs::encode(&m);
+                        // the whole frame has to fit the client's max-frame-size (a larger one is the
+                        // peer's protocol violation and ends the connection)
+                        let mut m = msgs::gen_message(own_uid, 200, 1);
+                        let mut payload = msgs::encode(&m);
+                        if payload.len() + 64 > mfs as usize {
+                            m = msgs::gen_message(own_uid, 40, 1);
+                            m.application_properties = None;
+                            m.message_annotations = None;
+                            m.delivery_annotations = None;
+                            m.footer = None;
+                            payload = msgs::encode(&m);
+                        }
                         let t = TransferArgs {
                             handle: rcv_peer_handle,
                             delivery_id: Some(st.ps.next_delivery_id),
